@@ -11,8 +11,9 @@ pub(crate) mod tables;
 mod c31_recovery;
 mod c08_eval;
 pub(crate) mod stream_model;
-mod ll_core;
+pub(crate) mod ll_core;
 mod c14_buffer;
+mod c17_kernels;
 
 // counterexample replay (written by the runner for `cargo kani playback`, removed afterwards)
 mod playback_gen;
